@@ -92,6 +92,7 @@ pub struct Cpu {
     pub events: [Event; MAX_EV],
     pub nev: usize,
     pub overflow: bool,
+    pub dropped: u64,
     pub step_end: u64,
     pub stop_requested: bool,
     pub steps: u64,
@@ -125,6 +126,7 @@ pub static mut CPU: Cpu = Cpu {
     events: [Event { ev: Ev::Cli, rip: 0, len: 0 }; MAX_EV],
     nev: 0,
     overflow: false,
+    dropped: 0,
     step_end: 0,
     stop_requested: false,
     steps: 0,
@@ -162,6 +164,7 @@ impl Cpu {
     pub fn clear_events(&mut self) {
         self.nev = 0;
         self.overflow = false;
+        self.dropped = 0;
     }
     pub fn evs(&self) -> Vec<Ev> {
         self.events[..self.nev].iter().map(|e| e.ev).collect()
@@ -212,8 +215,26 @@ impl Cpu {
             self.nev += 1;
         } else {
             self.overflow = true;
+            self.dropped += 1;
+            if self.dropped > 200_000 {
+                // the code under test keeps executing sensitive instructions without end: report and leave
+                unsafe { runaway() };
+            }
         }
     }
+}
+
+/// (property, signature, case) to report if the current call never stops issuing sensitive instructions
+pub static mut RUNAWAY: Option<(String, String, String)> = None;
+unsafe fn runaway() -> ! {
+    if let Some((prop, sig, case)) = RUNAWAY.as_ref() {
+        let line = format!(
+            "{{\"type\":\"violation\",\"prop\":{},\"part\":\"runaway\",\"sig\":{},\"case\":{},\"detail\":\"more than 200000 sensitive instructions in one call\",\"count\":1}}\n{{\"type\":\"summary\",\"prop\":{},\"part\":\"runaway\",\"evaluations\":1,\"nontrivial\":1,\"states\":0,\"transitions\":0,\"max_depth\":0,\"exhaustive\":false,\"violations\":1,\"hist\":{{}},\"samples\":[],\"notes\":[],\"caps\":[\"worker stopped at a non-terminating call\"]}}\n",
+            crate::out::jstr(prop), crate::out::jstr(sig), crate::out::jstr(case), crate::out::jstr(prop)
+        );
+        libc::write(1, line.as_ptr() as *const libc::c_void, line.len());
+    }
+    libc::_exit(0);
 }
 
 pub fn panic_hook_notify() {
